@@ -21,7 +21,7 @@ RULE = (
     "Dec values {+-pi/2,+-(pi/2-ulp),+-(pi/2-1e-9),+-1e-9,+-1e-16,0,2 generic}: all points, all ordered "
     "pairs; generic lattice 128x64 (irrational offsets, low digits moved by VERIF_SEED) with exact antipode "
     "and near-antipodes at 1e-12,1e-9,1e-6; distance alphabet incl. 0, denormal, pi-ulp, pi; all point "
-    "sets of size 1-3 of a 12-point alphabet, weighted/unweighted. Bounds: |distance error| <= min(1e-7, "
+    "sets of size 1-3 of a 12-point alphabet, weighted/unweighted; means of 2^20-1 and 2^20+3 (| 2^21+5, 3*2^20+1) points in two uneven clusters; histories {to_3d, distance, mean} -> in-place edit through {adopted buffer, .data, sliced views} -> {to_3d, distance, mean} equal to a fresh object of the current values. Bounds: |distance error| <= min(1e-7, "
     "1e-15*(1+2/(pi-theta))) (conditioning of the chord formula), never raises; round trips within 1e-7 (1e-12 away from RA=0/pi singular "
     "conditioning), RA in [0,2pi); unit norm 4e-16; conversions monotone. Non-trivial: a pair/point "
     "involving a special value or an antipode. One case = one block of pairs (vectorised)."
@@ -68,6 +68,13 @@ def cases(tier, seed):
     for k in (1, 2, 3):
         for combo in itertools.combinations(pts12, k):
             out.append(dict(part="mean", idx=list(combo)))
+    # means of more points than any internal block size (2^20 and beyond), unevenly spread over the blocks
+    for n in (2**20 + 3, 2**20 - 1) + ((2**21 + 5, 3 * 2**20 + 1) if tier == "thorough" else ()):
+        out.append(dict(part="bigmean", n=n))
+    # one coordinate object used, modified in place (through the adopted input buffer, .data, or a sliced view) and used again
+    for first, edit, second in itertools.product(("to_3d", "distance", "mean"), ("buffer", "data", "view"),
+                                                 ("to_3d", "distance", "mean")):
+        out.append(dict(part="history", first=first, edit=edit, second=second))
     if tier == "thorough":
         for s in range(1, 6):
             for i in range(nra):
@@ -321,9 +328,77 @@ def run_mean(case):
     return v, n > 0, n
 
 
+def run_bigmean(case):
+    from yaw import AngularCoordinates
+
+    n = case["n"]
+    i = np.arange(n, dtype=float)
+    # a tight cluster for all but the last points, which sit far away
+    ra = 0.5 + 1e-3 * ((i * 0.6180339887) % 1.0)
+    dec = 0.2 + 1e-3 * ((i * 0.4142135623) % 1.0)
+    ra[-3:], dec[-3:] = 2.5, -0.8
+    pts = np.column_stack([ra, dec])
+    v = []
+    for weights in (None, np.where(np.arange(n) >= n - 3, 1.0e5, 1.0)):
+        w = np.ones(n) if weights is None else weights
+        xyz = np.column_stack([np.cos(ra) * np.cos(dec), np.sin(ra) * np.cos(dec), np.sin(dec)]).astype(np.longdouble)
+        mean = (xyz * w[:, None]).sum(axis=0) / w.sum()
+        era, edec = ref.from_xyz(mean)
+        try:
+            got = AngularCoordinates(pts).mean(weights)
+        except Exception as e:
+            v.append(viol(f"C14/mean/exception:{type(e).__name__}", f"mean of {n} points raised {yawx.exc_name(e)}"))
+            continue
+        sdist = float(ref.sep(era, edec, got.ra[0], got.dec[0]))
+        if not sdist <= 1e-10:
+            v.append(viol("C14/mean/inaccurate/many-points",
+                          f"mean of {n} points ({'weighted' if weights is not None else 'unweighted'}) is {sdist:.3e} rad off"))
+    return v, True, 2 * n
+
+
+def run_history(case):
+    from yaw import AngularCoordinates
+
+    base = np.array([[0.3, 0.1], [1.2, -0.4], [4.0, 0.9], [5.9, -1.2]])
+    other = AngularCoordinates(np.array([[2.0, 0.5]]))
+    arr = base.copy()
+    coords = AngularCoordinates(arr)
+
+    def op(c, name):
+        if name == "to_3d":
+            return np.array(c.to_3d())
+        if name == "distance":
+            return np.array(c.distance(other).data)
+        return np.array(c.mean().data)
+
+    v = []
+    try:
+        op(coords, case["first"])
+        new = base[::-1] * np.array([0.5, -0.7]) + np.array([0.1, 0.05])
+        if case["edit"] == "buffer":
+            arr[:] = new
+        elif case["edit"] == "data":
+            coords.data[:] = new
+        else:
+            coords[:2].data[:] = new[:2]
+            coords[2:].data[:] = new[2:]
+        current = np.array(coords.data)
+        got = op(coords, case["second"])
+        want = op(AngularCoordinates(current.copy()), case["second"])
+    except Exception as e:
+        return [viol(f"C14/history/exception:{type(e).__name__}", f"{case}: {yawx.exc_name(e)}")], True, 1
+    if not np.array_equal(current, new):
+        return [], False, 1  # the object does not share the edited memory: nothing to compare
+    if not np.array_equal(got, want):
+        v.append(viol(f"C14/history/stale/{case['second']}",
+                      f"{case['second']} after {case['first']} and an in-place edit ({case['edit']}) answers for other "
+                      f"coordinates than the object holds: {got.tolist()} != {want.tolist()}"))
+    return v, True, 1
+
+
 def run_case(case):
     fn = dict(pairs=run_pairs, antipodes=run_antipodes, roundtrip=run_roundtrip, chord=run_chord,
-              mean=run_mean, from3d=run_from3d)[case["part"]]
+              mean=run_mean, from3d=run_from3d, bigmean=run_bigmean, history=run_history)[case["part"]]
     viols, nontrivial, n = fn(case)
     res = dict(nontrivial=bool(nontrivial), key=case, counters=dict(inputs_evaluated=n))
     if viols:
